@@ -33,7 +33,7 @@ def required_counters(tier):
     return {'monitor:contains:CirclePixelRegion': 10, 'monitor:contains:EllipsePixelRegion': 10,
             'monitor:contains:RectanglePixelRegion': 10, 'monitor:contains:PolygonPixelRegion': 10,
             'monitor:contains:CompoundPixelRegion': 10, 'monitor:contains:PointPixelRegion': 5,
-            'monitor:contains:LinePixelRegion': 5, 'in_operator': 10, 'history-steps': 50, 'sibling-regions': 10}
+            'monitor:contains:LinePixelRegion': 5, 'in_operator': 10, 'history-steps': 50, 'sibling-regions': 10, 'answers-overwritten-then-asked-again': 20}
 
 
 def setup(obs):
@@ -269,6 +269,11 @@ def run_case(case, obs):
     meta_as_constructed(obs, case['region'], region)
     pc = make_queries(region, case['q'])
     res = region.contains(pc)          # judged by the installed monitor
+    if case['q']['rs'] % 3 == 0 and isinstance(res, np.ndarray) and res.size and res.flags.writeable:
+        # the answer belongs to the caller: overwriting it must not show in a later answer
+        res[...] = ~res
+        obs.count('answers-overwritten-then-asked-again')
+        res = region.contains(pc)      # judged again
     if case.get('history'):
         # mutate-then-requery on the same object: the monitor's oracle reads the live parameters
         import random
